@@ -78,8 +78,9 @@ where
     tm.sort();
     writeln!(o, "tokens_map {:?}", tm).ok();
     let mut hp = String::new();
-    for a in 0..nr {
-        for b in 0..nr {
+    // quadratic: only for grammars of ordinary size
+    for a in 0..nr.min(300) {
+        for b in 0..nr.min(300) {
             hp.push(if grm.has_path(RIdx(a.as_()), RIdx(b.as_())) { '1' } else { '0' });
         }
     }
